@@ -32,6 +32,8 @@ type c11Scenario struct {
 func runC11(c *Ctx) {
 	// (a) queue histories
 	runQueue(c, "C11")
+	// (d) missing ranges of resumed files out of the real start-up recovery
+	runC11Recover(c)
 	// (b)+(c) packing
 	n := c.N(4000, 200000)
 	for i := 0; i < n; i++ {
